@@ -1,8 +1,9 @@
-(* MiniPyLemmas.v -- reasoning principles for the interpreter of MiniPy.v: the loops of [exec] as top-level functions,
+(* MiniPyFLemmas.v -- the text of MiniPyLemmas.v over MiniPyF.v (the float-extended copy of the interpreter).
+   MiniPyLemmas.v -- reasoning principles for the interpreter of MiniPy.v: the loops of [exec] as top-level functions,
    invariant rules for them, fuel monotonicity helpers and the representation functions used by the statements in
    coq/Generated/*GenProofs.v.  Nothing here depends on a generated program. *)
 From Coq Require Import Lia.
-From DSW Require Import MiniPy.
+From DSW Require Import MiniPyF.
 Open Scope Z_scope.
 
 (* ---- representation of model data as MiniPy values ------------------------------------------------------------- *)
@@ -138,22 +139,3 @@ Qed.
 
 Lemma to_str_digit d : 0 <= d <= 9 -> to_str (VInt d) = Ret (VStr [dchr d]).
 Proof. intro H. unfold to_str. rewrite (str_of_Z_digit d H). reflexivity. Qed.
-
-(* ---- representation of graphs, tables and bit arrays (NumPy arrays) ---------------------------------------------- *)
-Definition varr (l : list Z) : val := VArr (map VInt l).
-Definition varr2 (a : list (list Z)) : val := VArr (map varr a).
-Definition v_table (sh : option (list (list Z))) : val := match sh with Some t => varr2 t | None => VNone end.
-Definition v_optstr (o : option (list Z)) : val := match o with Some s => VStr s | None => VNone end.
-
-(* the shape of an accessor: rows of four entries, each -1 or the index of a row *)
-Definition acc_shape (acc : list (list Z)) : Prop :=
-  Forall (fun row => length row = 4%nat /\ Forall (fun x => -1 <= x < Z.of_nat (length acc)) row) acc.
-(* a shuffle table for it: one row of four DISTINCT integers per vertex (NumPy's argsort is unspecified on ties) *)
-Definition table_shape (n : nat) (sh : option (list (list Z))) : Prop :=
-  match sh with
-  | None => True
-  | Some t => length t = n /\ Forall (fun r => length r = 4%nat /\ NoDup r) t
-  end.
-
-Lemma items_varr l : items (varr l) = Ret (map VInt l).
-Proof. reflexivity. Qed.
